@@ -70,3 +70,37 @@ func VerifC17Hist() {
 	}
 	verifReach("end")
 }
+
+// C17.closed — use after Close (adjacent to the property: HTTPSingleFileRemoteReaderAt.Close
+// closes the cache while the reader object stays reachable). After Close an operation must not
+// crash the process: a read returns the remote bytes or an error.
+func VerifC17Closed() {
+	const id = "C17.closed"
+	size := verifParam("size", 3)
+	rc, m := c17New(size, true)
+	ctx := context.Background()
+	c17SeedSet(rc, m, size, 1)
+	verifMapOrderNondet(true)
+	rc.Close()
+	op := verifChoice("op", 3)
+	// known finding: Close sets the map to nil; every later store into it (the miss path of
+	// GetRange, SetRange) panics with "assignment to entry in nil map"
+	verifKnownFinding("C17-use-after-close", op != 2)
+	switch op {
+	case 0:
+		start, ln, _ := c17Args(m, size)
+		fails0 := m.fails
+		got, err := rc.GetRange(ctx, start, ln)
+		if err == nil {
+			c17CheckGet(m, id, start, ln, got, err, fails0)
+		}
+	case 1:
+		a, b := c17RangeByIndex(size, verifChoice("range", c17NumRanges(size)))
+		value := make([]byte, b-a)
+		copy(value, m.data[a:b])
+		rc.SetRange(ctx, a, b-a, value)
+	case 2:
+		rc.DeleteOldEntries(ctx, time.Minute)
+	}
+	verifReach("end")
+}
